@@ -16,6 +16,7 @@ import (
 	"time"
 
 	"github.com/AdguardTeam/AdGuardHome/internal/client"
+	"github.com/AdguardTeam/AdGuardHome/internal/dhcpsvc"
 	"github.com/AdguardTeam/AdGuardHome/internal/filtering"
 	"github.com/AdguardTeam/AdGuardHome/internal/schedule"
 	"github.com/AdguardTeam/dnsproxy/upstream"
@@ -39,7 +40,14 @@ import (
 //       the objects of generation 2 equal those of generation 1;
 //   (d) start-up fails exactly when a plain reference reading of the file says
 //       it must (bad identifier, unknown service, clash, invalid record), at
-//       that object.
+//       that object;
+//   (e) round 4: Init runs under every combination of the
+//       clients.runtime_sources switches (whois, arp, rdns, dhcp, hosts) with a
+//       DHCP server that has leases: a request is attributed by the precedence
+//       ClientID > address > most specific CIDR > MAC of the address's lease,
+//       and the SAME file loaded under the opposite switches attributes every
+//       probe identically (the switches govern runtime-client information, not
+//       how persistent clients are matched).
 
 // ---- universe
 
@@ -73,6 +81,125 @@ var c04cProbes = []c04cProbe{
 	{"", netip.MustParseAddr("10.1.2.3")}, {"", netip.MustParseAddr("10.1.9.9")}, {"", netip.MustParseAddr("10.200.0.1")},
 	{"", netip.MustParseAddr("2001:db8::1")}, {"cli1", netip.MustParseAddr("8.8.8.8")}, {"phone", netip.MustParseAddr("10.1.2.3")},
 	{"", netip.MustParseAddr("fe80::1%eth0")}, {"", netip.MustParseAddr("192.168.7.20")}, {"", netip.MustParseAddr("8.8.8.8")},
+	{"", netip.MustParseAddr("172.30.0.9")}, {"unregistered", netip.MustParseAddr("172.30.0.10")}, {"", netip.MustParseAddr("2001:db9::7")},
+}
+
+// ---- round 4: the runtime_sources switches and the DHCP server handed to Init
+
+type c04cDHCP struct{ tbl map[netip.Addr]net.HardwareAddr }
+
+func (d *c04cDHCP) Leases() []*dhcpsvc.Lease   { return nil }
+func (d *c04cDHCP) HostByIP(netip.Addr) string { return "" }
+func (d *c04cDHCP) MACByIP(ip netip.Addr) net.HardwareAddr {
+	if m, ok := d.tbl[ip]; ok {
+		return m
+	}
+	return nil
+}
+
+// c04cEnv is what Init runs under: config.Clients.Sources and the leases.
+type c04cEnv struct {
+	whois, arp, rdns, dhcp, hosts bool
+	leases                        map[netip.Addr]net.HardwareAddr
+}
+
+func (e *c04cEnv) opposite() *c04cEnv {
+	return &c04cEnv{!e.whois, !e.arp, !e.rdns, !e.dhcp, !e.hosts, e.leases}
+}
+
+func (e *c04cEnv) String() string {
+	return fmt.Sprintf("runtime_sources{whois:%v arp:%v rdns:%v dhcp:%v hosts:%v}", e.whois, e.arp, e.rdns, e.dhcp, e.hosts)
+}
+
+func (e *c04cEnv) coq() (srcs, leases string) {
+	keys := make([]netip.Addr, 0, len(e.leases))
+	for a := range e.leases {
+		keys = append(keys, a)
+	}
+	sort.Slice(keys, func(i, j int) bool { return keys[i].Compare(keys[j]) < 0 })
+	items := make([]string, len(keys))
+	for i, a := range keys {
+		items[i] = vfPair(c04cAddr(a), vfBytes(string(e.leases[a])))
+	}
+	return vfApp("mksrc", vfBool(e.whois), vfBool(e.arp), vfBool(e.rdns), vfBool(e.dhcp), vfBool(e.hosts)),
+		vfList("(bytes * bytes) * bytes", items)
+}
+
+// c04cDefaultEnv: the defaults of the configuration (everything on) and a lease
+// for every probe address that is no client's identifier in most files.
+func c04cDefaultEnv() *c04cEnv {
+	mac := func(s string) net.HardwareAddr { m, _ := net.ParseMAC(s); return m }
+	return &c04cEnv{true, true, true, true, true, map[netip.Addr]net.HardwareAddr{
+		netip.MustParseAddr("172.30.0.9"):   mac("aa:bb:cc:dd:ee:01"),
+		netip.MustParseAddr("172.30.0.10"):  mac("AA-BB-CC-DD-EE-02"),
+		netip.MustParseAddr("2001:db9::7"):  mac(c04cMAC8),
+		netip.MustParseAddr("8.8.8.8"):      mac("00:00:00:00:fe:80:00:00:00:00:00:00:02:00:5e:10:00:00:00:01"),
+		netip.MustParseAddr("10.1.9.9"):     mac("aa:bb:cc:dd:ee:01"),
+		netip.MustParseAddr("192.168.7.20"): mac("AA-BB-CC-DD-EE-02"),
+	}}
+}
+
+func c04cRandEnv(r *vfRand) *c04cEnv {
+	e := &c04cEnv{r.Bool(), r.Bool(), r.Bool(), r.Bool(), r.Bool(), map[netip.Addr]net.HardwareAddr{}}
+	var macs []net.HardwareAddr
+	for _, m := range c04cMACs {
+		if hw, err := net.ParseMAC(m); err == nil {
+			if _, ipErr := netip.ParseAddr(m); ipErr != nil {
+				macs = append(macs, hw)
+			}
+		}
+	}
+	macs = append(macs, net.HardwareAddr{2, 0, 0, 0, 0, 9}) // nobody's
+	for _, q := range c04cProbes {
+		if r.Chance(3, 5) {
+			e.leases[q.a] = vfPick(r, macs)
+		}
+	}
+	return e
+}
+
+// c04cResolve: the client of the file a request belongs to, by the stated
+// precedence, from the identifiers as written.
+func c04cResolve(specs []*c04cSpec, e *c04cEnv, q c04cProbe) (name, how string) {
+	owner := func(key string) string {
+		for _, s := range specs {
+			for _, id := range s.ids {
+				if c04cParseID(id).key == key {
+					return s.name
+				}
+			}
+		}
+		return ""
+	}
+	if q.cid != "" {
+		if n := owner("cid:" + q.cid); n != "" {
+			return n, "cid"
+		}
+	}
+	if n := owner("ip:" + q.a.String()); n != "" {
+		return n, "ip"
+	}
+	best, bestName := netip.Prefix{}, ""
+	for _, s := range specs {
+		for _, id := range s.ids {
+			p, err := netip.ParsePrefix(id)
+			if _, ipErr := netip.ParseAddr(id); err != nil || ipErr == nil || !p.Contains(q.a.WithZone("")) {
+				continue
+			}
+			if bestName == "" || p.Bits() > best.Bits() || (p.Bits() == best.Bits() && p.Addr().Compare(best.Addr()) < 0) {
+				best, bestName = p, s.name
+			}
+		}
+	}
+	if bestName != "" {
+		return bestName, "cidr"
+	}
+	if m, ok := e.leases[q.a]; ok {
+		if n := owner("mac:" + m.String()); n != "" {
+			return n, "dhcp"
+		}
+	}
+	return "", "none"
 }
 
 // flag keys of the YAML object, in a fixed order
@@ -492,7 +619,12 @@ func c04cGlobal() filtering.Settings {
 	return filtering.Settings{FilteringEnabled: true, SafeBrowsingEnabled: true}
 }
 
-func c04cLoad(t *testing.T, dataDir string, u *c04cUIDs, objs []*clientObject) (g *c04cGen) {
+func c04cLoad(t *testing.T, dataDir string, u *c04cUIDs, objs []*clientObject, e *c04cEnv) (g *c04cGen) {
+	// Init reads the switches from the global configuration
+	prevSrc := *config.Clients.Sources
+	config.Clients.Sources.WHOIS, config.Clients.Sources.ARP, config.Clients.Sources.RDNS = e.whois, e.arp, e.rdns
+	config.Clients.Sources.DHCP, config.Clients.Sources.HostsFile = e.dhcp, e.hosts
+	defer func() { *config.Clients.Sources = prevSrc }()
 	g = &c04cGen{stage: -1}
 	ctx, cancel := context.WithTimeout(context.Background(), 20*time.Second)
 	defer cancel()
@@ -505,7 +637,7 @@ func c04cLoad(t *testing.T, dataDir string, u *c04cUIDs, objs []*clientObject) (
 				err = fmt.Errorf("panic: %v", rec)
 			}
 		}()
-		err = cc.Init(ctx, slogutil.NewDiscardLogger(), objs, client.EmptyDHCP{}, nil, nil, fconf, newSignalHandler(nil, nil))
+		err = cc.Init(ctx, slogutil.NewDiscardLogger(), objs, &c04cDHCP{tbl: e.leases}, nil, nil, fconf, newSignalHandler(nil, nil))
 	}()
 	if err != nil {
 		g.errText = err.Error()
@@ -639,6 +771,7 @@ func c04cUIDStr(n int) string { return fmt.Sprintf("0191c5e2-0000-7000-8000-%012
 // ---- one case
 
 type c04cRun struct {
+	env   *c04cEnv // what the next file is loaded under
 	t     *testing.T
 	out   *vfOut
 	known []string
@@ -702,7 +835,11 @@ func (h *c04cRun) run(tag string, specs []*c04cSpec) {
 		}
 	}
 
-	g1 := c04cLoad(t, h.dataDir, u, objs)
+	env := h.env
+	if env == nil {
+		env = c04cDefaultEnv()
+	}
+	g1 := c04cLoad(t, h.dataDir, u, objs, env)
 	wantStage, wantIdx, why := c04cExpect(specs, h.known)
 	if g1.stage != wantStage || (wantStage >= 0 && g1.idx != wantIdx) {
 		if g1.stage < 0 {
@@ -778,11 +915,56 @@ func (h *c04cRun) run(tag string, specs []*c04cSpec) {
 					}
 				}
 			}
-			g2 = c04cLoad(t, h.dataDir, u, objs2)
+			g2 = c04cLoad(t, h.dataDir, u, objs2, env)
 			if g2.coq != g1.coq {
 				res2 = vfOpt("cres", true, g2.coq)
 			}
 			h.checkSecond(g1, g2, fail)
+		}
+	}
+
+	// (e) precedence at the container level and independence of the switches
+	if g1.stage < 0 {
+		for _, k := range []struct {
+			on   bool
+			name string
+		}{{env.whois, "whois"}, {env.arp, "arp"}, {env.rdns, "rdns"}, {env.dhcp, "dhcp"}, {env.hosts, "hosts"}} {
+			if k.on {
+				cls["cfg-src-"+k.name+"-on"] = true
+			} else {
+				cls["cfg-src-"+k.name+"-off"] = true
+			}
+		}
+		for i, q := range c04cProbes {
+			want, how := c04cResolve(specs, env, q)
+			cls["cfg-acf-"+how] = true
+			if how == "dhcp" && !env.dhcp {
+				cls["cfg-acf-dhcp-source-off"] = true
+			}
+			if got := g1.acfs[i].ClientName; got != want {
+				fail("container-precedence", fmt.Sprintf("under %v with leases %v the request (%q, %v) is attributed to %q; by precedence (%s) it belongs to %q",
+					env, env.leases, q.cid, q.a, got, how, want))
+			}
+		}
+		var objsAlt []*clientObject
+		if err := yaml.Unmarshal([]byte(doc.String()), &objsAlt); err != nil {
+			t.Fatal(err)
+		}
+		alt := env.opposite()
+		gAlt := c04cLoad(t, h.dataDir, &c04cUIDs{m: map[client.UID]uint64{}}, objsAlt, alt)
+		if gAlt.stage >= 0 {
+			fail("sources-change-load", fmt.Sprintf("the file loads under %v and is refused under %v: %s", env, alt, gAlt.errText))
+		} else {
+			for i, q := range c04cProbes {
+				if a, b := c04cSettings(g1.acfs[i]), c04cSettings(gAlt.acfs[i]); a != b {
+					txt := func(st *filtering.Settings) string {
+						return fmt.Sprintf("client %q filtering=%v safesearch=%v safebrowsing=%v parental=%v", st.ClientName,
+							st.FilteringEnabled, st.SafeSearchEnabled, st.SafeBrowsingEnabled, st.ParentalEnabled)
+					}
+					fail("sources-change-lookup", fmt.Sprintf("request (%q, %v) with leases %v gets [%s] under %v and [%s] under %v",
+						q.cid, q.a, env.leases, txt(g1.acfs[i]), env, txt(gAlt.acfs[i]), alt))
+				}
+			}
 		}
 	}
 
@@ -823,7 +1005,7 @@ func (h *c04cRun) run(tag string, specs []*c04cSpec) {
 		tokItems[i] = vfPair(vfBytes(k), vfBool(h.addrOK(k)))
 	}
 	g := c04cGlobal()
-	env := vfApp("mkenv", c04cStrs(allowed), vfList("bytes * bool", tokItems), c04cStrs(h.known), c04cSettings(&g))
+	menv := vfApp("mkenv", c04cStrs(allowed), vfList("bytes * bool", tokItems), c04cStrs(h.known), c04cSettings(&g))
 	probes := make([]string, len(c04cProbes))
 	for i, q := range c04cProbes {
 		probes[i] = vfPair(vfBytes(q.cid), c04cAddr(q.a))
@@ -832,14 +1014,15 @@ func (h *c04cRun) run(tag string, specs []*c04cSpec) {
 	for i := range fileObjs {
 		items[i] = vfPair(gens[i], fileObjs[i])
 	}
-	coq := vfApp("CConf", env, vfList("bytes * (bytes * bytes)", probes), c04cSettings(&g), vfList("uid * cobj", items), g1.coq, res2)
+	srcsCoq, leasesCoq := env.coq()
+	coq := vfApp("CConf", menv, srcsCoq, leasesCoq, vfList("bytes * (bytes * bytes)", probes), c04cSettings(&g), vfList("uid * cobj", items), g1.coq, res2)
 
 	var classes []string
 	for k := range cls {
 		classes = append(classes, k)
 	}
 	sort.Strings(classes)
-	desc := map[string]any{"kind": "config-roundtrip " + tag, "yaml": doc.String()}
+	desc := map[string]any{"kind": "config-roundtrip " + tag, "yaml": doc.String(), "runtime_sources": env.String(), "leases": fmt.Sprint(env.leases)}
 	if g1.stage >= 0 {
 		desc["init_error"] = g1.errText
 	}
@@ -1317,6 +1500,26 @@ func c04cPrelude(h *c04cRun) {
 		nos("empty_own", "192.168.7.20", false, 1, 0, nil),
 		c04cNewSpec("with_sched", "fe80::1%eth0").set("use_global_blocked_services", false).blocked(2, 2, []string{"9gag"}, night),
 	})
+	// round 4: clients identified by MAC only (6, 8 and 20 bytes) reached through
+	// the lease of the request's address, under every single switch off, all off,
+	// all on; above them a CIDR client and an exact-address client that win
+	for _, e := range []*c04cEnv{
+		{true, true, true, true, true, nil}, {false, false, false, false, false, nil}, {true, true, true, false, true, nil},
+		{false, true, true, true, true, nil}, {true, false, true, true, true, nil}, {true, true, false, true, true, nil},
+		{true, true, true, true, false, nil}, {false, false, false, true, false, nil},
+	} {
+		e.leases = c04cDefaultEnv().leases
+		h.env = e
+		h.run("prelude-sources", []*c04cSpec{
+			c04cNewSpec("kid", "aa:bb:cc:dd:ee:01").set("use_global_settings", false).set("parental_enabled", true).set("use_global_blocked_services", true),
+			c04cNewSpec("tv", "AA-BB-CC-DD-EE-02").set("use_global_settings", false).set("filtering_enabled", false),
+			c04cNewSpec("eui64", c04cMAC8).set("use_global_settings", true),
+			c04cNewSpec("ib", "00:00:00:00:fe:80:00:00:00:00:00:00:02:00:5e:10:00:00:00:01"),
+			c04cNewSpec("lan", "192.168.0.0/16"),
+			c04cNewSpec("box", "10.1.9.9", "cli1"),
+		})
+	}
+	h.env = nil
 	// start-up refusals
 	h.run("prelude-error-clash", []*c04cSpec{c04cNewSpec("a", "10.1.2.3", "cli1"), c04cNewSpec("b", "10.1.2.4", "CLI1")})
 	h.run("prelude-error-clash", []*c04cSpec{c04cNewSpec("a", "10.1.2.3"), c04cNewSpec("b", "10.1.2.4"), c04cNewSpec("a", "cli1")})
@@ -1359,6 +1562,9 @@ func TestVerifC04(t *testing.T) {
 	c04cPrelude(h)
 	r := vfNewRand(out.Seed)
 	for i := out.Scale(40, 1500); i > 0; i-- {
-		h.run("random", c04cRandFile(r.Fork(uint64(i))))
+		fr := r.Fork(uint64(i))
+		specs := c04cRandFile(fr)
+		h.env = c04cRandEnv(fr.Fork(9))
+		h.run("random", specs)
 	}
 }
